@@ -86,6 +86,68 @@ func (r *RegistrationDB) AddProducer(k Registration, p *Producer) bool {
 	return !found
 }
 
+// add a registration key for a channel and for its topic in one critical section
+// (a concurrent RemoveTopic sees both or neither)
+func (r *RegistrationDB) AddTopicChannel(topic string, channel string) {
+	r.Lock()
+	defer r.Unlock()
+	channelKey := Registration{"channel", topic, channel}
+	if _, ok := r.registrationMap[channelKey]; !ok {
+		r.registrationMap[channelKey] = make(map[string]*Producer)
+	}
+	topicKey := Registration{"topic", topic, ""}
+	if _, ok := r.registrationMap[topicKey]; !ok {
+		r.registrationMap[topicKey] = make(map[string]*Producer)
+	}
+}
+
+// register a peer as producer of a channel (if one is named) and of its topic in one
+// critical section: a concurrent RemoveTopic removes both registrations or neither,
+// never leaving the peer registered for the topic without the channel it registered with it
+func (r *RegistrationDB) RegisterProducer(topic string, channel string, peerInfo *PeerInfo) (bool, bool) {
+	r.Lock()
+	defer r.Unlock()
+	add := func(k Registration) bool {
+		producers, ok := r.registrationMap[k]
+		if !ok {
+			producers = make(map[string]*Producer)
+			r.registrationMap[k] = producers
+		}
+		_, found := producers[peerInfo.id]
+		if !found {
+			producers[peerInfo.id] = &Producer{peerInfo: peerInfo}
+		}
+		return !found
+	}
+	addedChannel := false
+	if channel != "" {
+		addedChannel = add(Registration{"channel", topic, channel})
+	}
+	return addedChannel, add(Registration{"topic", topic, ""})
+}
+
+// remove the registrations of a topic ("*" = every topic) and of all its channels in one
+// critical section; returns what was removed
+func (r *RegistrationDB) RemoveTopic(topic string) (Registrations, Registrations) {
+	r.Lock()
+	defer r.Unlock()
+	channels, topics := Registrations{}, Registrations{}
+	for k := range r.registrationMap {
+		if k.IsMatch("channel", topic, "*") {
+			channels = append(channels, k)
+		} else if k.IsMatch("topic", topic, "") {
+			topics = append(topics, k)
+		}
+	}
+	for _, k := range channels {
+		delete(r.registrationMap, k)
+	}
+	for _, k := range topics {
+		delete(r.registrationMap, k)
+	}
+	return channels, topics
+}
+
 // remove a producer from a registration
 func (r *RegistrationDB) RemoveProducer(k Registration, id string) (bool, int) {
 	r.Lock()
